@@ -231,6 +231,82 @@ def prop_tpl_exp(s: str) -> bool:
     return _color_ok('' + s + 'e9')
 
 
+def prop_tpl_hex6_a(s: str) -> bool:
+    """
+    pre: len(s) <= 2
+    post: _
+    """
+    return _color_ok('#' + s + 'ffff')
+
+
+def prop_tpl_hex6_b(s: str) -> bool:
+    """
+    pre: len(s) <= 2
+    post: _
+    """
+    return _color_ok('#ff' + s + 'ff')
+
+
+def prop_tpl_hex6_c(s: str) -> bool:
+    """
+    pre: len(s) <= 2
+    post: _
+    """
+    return _color_ok('#ffff' + s + '')
+
+
+def prop_tpl_hex3_a(s: str) -> bool:
+    """
+    pre: len(s) <= 2
+    post: _
+    """
+    return _color_ok('#' + s + 'f')
+
+
+def prop_tpl_hex3_b(s: str) -> bool:
+    """
+    pre: len(s) <= 2
+    post: _
+    """
+    return _color_ok('#f' + s + '')
+
+
+def prop_tpl_hex6_nohash(s: str) -> bool:
+    """
+    pre: len(s) <= 2
+    post: _
+    """
+    return _color_ok('' + s + 'abcd')
+
+
+HEX_ALPHABET = "-+ _.xX#gG%,()\t\n0aF９٠lO§"
+
+
+def prop_hex_one_char_replaced(pos: int, k: int, three: bool) -> bool:
+    """
+    One character of a valid hex colour replaced by a character from a fixed alphabet of near-misses (sign, blank,
+    underscore, dot, x, #, non-hex letters, full-width and Arabic-Indic digits ...): position and character symbolic.
+    pre: 0 <= pos < 6 and 0 <= k < len(HEX_ALPHABET)
+    post: _
+    """
+    base = "a1f" if three else "a1f09c"
+    if pos >= len(base):
+        return True
+    c = HEX_ALPHABET[k]
+    s = "#" + base[:pos] + c + base[pos + 1:]
+    ok = _color_ok(s) and _color_ok(s[1:])
+    if not ok:
+        return False
+    if c not in "0123456789abcdefABCDEF":
+        # a non-hex character can never yield a valid colour
+        try:
+            if Color(s).is_valid or (Color(s[1:]).is_valid and s[1:].lower() not in ("",)):
+                return False
+        except Exception:
+            return False
+    return True
+
+
 def prop_tuple0() -> bool:
     """
     post: _
